@@ -1,6 +1,7 @@
 """C03 — field writes are range-checked, read back exactly, touch only their own bits (structural clauses)."""
 from checks.common import Ctx
 from sa.report import Check
+from sa.rules import resolve_rules as RR
 from sa.rules import cpp_rules as C
 from sa.rules import write_rules as W
 from sa.rules import window_rules as WN
@@ -31,4 +32,5 @@ def main(tier):
     chk.run("R-NARROWLIT", CR.narrowlit, cx.cpp, skip=r"IsBcd|ConvertToBinary|^Read|UncheckedRead", floor=10)
     chk.run("R-LOOPCOVER", CR.loopcover, cx.cpp, methods=("ConvertToBcd",), floor=64)
     chk.run("R-CPPRANGE", CR.cpprange, cx.cpp, floor=2000)
+    chk.run("R-PATHEND", RR.pathend, cx.repo, floor=2, modules=("compiler/front_end/write_inference.py",))
     return chk.finish()
